@@ -85,7 +85,7 @@ func report(prop string, cfg *PropConfig, w *World, results []*FnResult, missing
 		seen[o.Name] = true
 		solverTime += o.TimeS
 		if verbose || o.Result != "proved" {
-			fmt.Printf("  %-9s %-14s %6.2fs %s\n", o.Result, o.Backend, o.TimeS, o.Name)
+			fmt.Printf("  %-9s %-14s %6.2fs %s  [%s]\n", o.Result, o.Backend, o.TimeS, o.Name, o.Where)
 		}
 		if o.Result == "proved" {
 			proved++
